@@ -17,7 +17,7 @@ PROPERTIES = {
         'assumptions': ['clip() and iteration (one step of the iterator, induction over steps) are proved unbounded on abstract tables relative to the contract of __getitem__ (G3, G3i, Z3); AnsiStr.__getitem__/clip are wrappers (C13)'],
     },
     'C06': {
-        'groups': ['SL', 'F3', 'F2', 'N1'],
+        'groups': ['SL', 'F3', 'F2', 'N1', 'Z2'],
         'level': 'other',
         'explanation': 'Contract on AnsiString.apply_formatting over bounded-symbolic tables: text unchanged, no-op cases, '
                        'characters outside the slice-normalised range keep their settings in order, inside they gain exactly '
@@ -28,7 +28,7 @@ PROPERTIES = {
         'assumptions': ['settings are given as AnsiSetting objects in this group; the other spellings are C14'],
     },
     'C07': {
-        'groups': ['SL', 'M2', 'M1'],
+        'groups': ['SL', 'M2', 'M1', 'Z2'],
         'level': 'other',
         'explanation': 'Contract on AnsiString.remove_formatting over bounded-symbolic tables whose setting texts are str(code) '
                        'for symbolic known SGR codes: inside the range the selected settings (by value; None = all) are gone and '
